@@ -73,4 +73,20 @@ def runG (fuel : Nat) : GState → List OpG → Option GState
     | some (c', ctr', _) => runG fuel { cache := c', counter := ctr' } ops
     | none => none
 
+/-- `janet_symbol_gen` WITHOUT a probe bound as parameter: the C loop has none.  `janet_vm.cache_count + 1` probes always
+    suffice (`genLoop_terminates` in SymGenTerm.lean: the counter names are pairwise distinct, so after `cache_count + 1` hits
+    the cache would hold more symbols than it counts), and more fuel never changes the result — hence this IS the result of the
+    unbounded loop, and `none` can only mean the NULL-bucket `janet_assert`. -/
+def gensymT (c : Cache) (ctr : List UInt8) : Option (Cache × List UInt8 × Nat) := gensym (c.count + 1) c ctr
+
+/-- histories with gensym, no probe bound -/
+def runGT : GState → List OpG → Option GState
+  | s, [] => some s
+  | s, .intern b :: ops => match intern s.cache b with | some (c', _) => runGT { s with cache := c' } ops | none => none
+  | s, .sweep b :: ops => runGT { s with cache := deinit s.cache b } ops
+  | s, .gensym :: ops =>
+    match gensymT s.cache s.counter with
+    | some (c', ctr', _) => runGT { cache := c', counter := ctr' } ops
+    | none => none
+
 end JanetModel.Value.SymCache
